@@ -33,7 +33,7 @@ ASSUMPTIONS = [
     "T1 uses representative ids (client streams 5, 9 open as 1, 3; 21 and 17 waiting, 21 first; 13 new): the code uses ids only as dictionary keys",
     "T1 bounds: <= 2 waiting streams with <= 2 events each; Http2Client._handle_event2 (the h2 I/O) is abstracted to: logs its event, yields scripted commands, changes the open-stream count (+1 on request headers, arbitrary otherwise)",
     "queue invariant (streams wait only while open >= limit) is assumed on entry and proved on exit of every call",
-    "BufferedH2Connection (send_data, send_trailers, end_stream, reset_stream, stream_window_updated, receive_data) is under T1 contract with the hyper-h2 base class summarised (ghost log of frames, symbolic per-stream credit; send_data beyond the credit is recorded as a violation): data <= one frame (16384) per call, <= 2 buffered chunks, one unrelated stream Y (idle | blocked | blocked with queued trailers); the frame-splitting loop of send_data and the round-robin of connection_window_updated are covered in T2 only (70000-byte bodies, late credit); h2 PUSH is disabled by mitmproxy",
+    "BufferedH2Connection (send_data, send_trailers, end_stream, reset_stream, stream_window_updated, receive_data) is under T1 contract with the hyper-h2 base class summarised (ghost log of frames, symbolic per-stream credit; send_data beyond the credit is recorded as a violation): <= 2 buffered chunks, one unrelated stream Y (idle | blocked | blocked with queued trailers); send_data with data <= one frame (16384), and its frame-splitting branch with max_outbound_frame_size = 4 and every data length in (4, 12] (scenario send_data.split_over_frames: conservation, piece size, END_STREAM on exactly the last piece, credit, isolation; the code only compares and slices with the frame size); the round-robin of connection_window_updated is covered in T2 only (70000-byte bodies, late credit; error pages of up to 140000 bytes written by mitmproxy in one send_data(end_stream=True)); h2 PUSH is disabled by mitmproxy",
     "T2 observes the order in which requests are handed to the upstream connection with a spy on Http2Client._handle_event (hook completion order decides it, not frame order)",
 ]
 
@@ -697,7 +697,7 @@ def mk_chunk(vc, data, end):
     return vc.construct("mitmproxy.proxy.layers.http._http_h2:SendH2Data", data, end)
 
 
-def mk_buffered(vc, bufs, trailers, x_open=True):
+def mk_buffered(vc, bufs, trailers, x_open=True, max_frame=None):
     """bufs: {sid: [(data, end_stream)]}; trailers: {sid: fields}. Streams X and Y exist at the h2 level (Y open; X open or not)."""
     import collections
     import h2.stream
@@ -713,7 +713,7 @@ def mk_buffered(vc, bufs, trailers, x_open=True):
     SS = h2.stream.StreamState
     streams = vc.dict([(sid, vc.new("props.C05:H2StreamStub", state_machine=vc.new("props.C05:H2StateStub", state=st)))
                        for sid, st in ((X, SS.OPEN if x_open else SS.CLOSED), (Y, SS.OPEN))])
-    return vc.new(BH, stream_buffers=sb, stream_trailers=vc.dict(list(trailers.items())), max_outbound_frame_size=MAXFRAME, streams=streams,
+    return vc.new(BH, stream_buffers=sb, stream_trailers=vc.dict(list(trailers.items())), max_outbound_frame_size=max_frame or MAXFRAME, streams=streams,
                   outbound_flow_control_window=1)
 
 
@@ -828,6 +828,58 @@ def s_buf_send_data(vc):
         vc.ensure("blocked.rest_buffered_with_end_flag", vc.eq(now[0][1], end) if len(now) == 1 else False)
         vc.ensure("blocked.sent_part_does_not_end_the_stream", all_(vc.eq(e[3], False) for e in sent) if len(sent) <= 1 else False)
         vc.ensure("blocked.window_used_up", Iff(wx > 0, len(sent) == 1) if vc.mode == "sym" else ((wx > 0) == (len(sent) == 1)))
+
+
+SMALLFRAME = 4
+
+
+@scenario("BufferedH2Connection.send_data.split_over_frames", functions=[BH + ".send_data"], asserts_are_obligations=True)
+def s_buf_send_data_split(vc):
+    """a write larger than the peer's maximum frame size (here 4; the code only compares and slices with it) is cut into frames:
+    nothing lost or reordered, no piece larger than a frame, the caller's END_STREAM flag on exactly the last piece - whether
+    that piece goes to the wire or has to wait for credit"""
+    y_chunks, y_tr = y_state(vc)
+    L = vc.case("data_length", list(range(SMALLFRAME + 1, 3 * SMALLFRAME + 1)))
+    pre_x = vc.case("own_buffer", [0, 1])
+    x_chunks = [(vc.sym_bytes("x_buffered", SMALLFRAME), False)] if pre_x else []
+    if pre_x:
+        vc.assume(len_(x_chunks[0][0]) > 0)
+    data = vc.sym_bytes("data", 3 * SMALLFRAME)
+    vc.assume(len_(data) == L)
+    end = vc.sym_bool("end_stream")
+    wx = vc.sym_int("window_x", lo=0)
+    win = {X: wx, Y: vc.sym_int("window_y", lo=0)}
+    bufs = {}
+    if x_chunks:
+        bufs[X] = x_chunks
+    if y_chunks:
+        bufs[Y] = y_chunks
+    conn = mk_buffered(vc, bufs, {Y: y_tr} if y_tr is not None else {}, max_frame=SMALLFRAME)
+    log, overdraft = install_h2_base(vc, win)
+    out = vc.call(BH + ".send_data", conn, X, data, end)
+    vc.ensure("no_exception", out.ok)
+    if not out.ok:
+        return
+    vc.ensure("never_beyond_the_window", overdraft == [])
+    other_stream_untouched(vc, "isolation", conn, log, y_chunks, y_tr)
+    now = buf_chunks(vc, conn, X)
+    sent = [e for e in log if e[0] == "data"]
+    vc.ensure("only_data_frames", len(sent) == len(log))
+    vc.ensure("conservation_in_order", vc.eq(cat([e[2] for e in sent] + [c[0] for c in now]), cat([c[0] for c in x_chunks] + [data])))
+    new_buffered = now[len(x_chunks):]
+    vc.ensure("old_buffer_stays_in_front", And(vc.eq(now[0][0], x_chunks[0][0]), vc.eq(now[0][1], False)) if pre_x and now else (not pre_x))
+    pieces = [(e[2], e[3]) for e in sent] + list(new_buffered)
+    vc.ensure("every_piece_fits_a_frame", all_(len_(p_[0]) <= SMALLFRAME for p_ in pieces))
+    vc.ensure("at_least_two_pieces", len(pieces) >= 2)
+    if pieces:
+        vc.ensure("end_flag.on_the_last_piece_iff_requested", vc.eq(pieces[-1][1], end))
+        vc.ensure("end_flag.on_no_earlier_piece", all_(vc.eq(p_[1], False) for p_ in pieces[:-1]))
+    if pre_x:
+        vc.ensure("behind_buffered_data.nothing_sent", sent == [])
+    else:
+        # progress: whatever the credit allows goes out now
+        want = If(wx < L, wx, L)
+        vc.ensure("progress.as_much_as_the_window_allows", len_(cat([e[2] for e in sent])) == want)
 
 
 @scenario("BufferedH2Connection.send_trailers_end_reset", functions=[BH + ".send_trailers", BH + ".end_stream", BH + ".reset_stream", BH + ".send_data"], asserts_are_obligations=True)
@@ -1579,6 +1631,47 @@ def _crossed_cancel_specs():
     return out
 
 
+def check_error_page(b, n):
+    """mitmproxy itself writes a body larger than one frame with END_STREAM in a single send_data call: the HTTP/2 error page for
+    an upstream connect error whose message has n bytes. The client must get status, the whole page and the end of the stream."""
+    import h2.events
+    from mitmproxy.proxy import mode_specs
+    from mitmproxy.proxy.layers import http as H
+    from props import sansio
+    from props.h2peer import DeferDriver, H2Peer
+    from props.C06 import h2_message
+    inp = {"kind": "error-page", "message_bytes": n}
+    try:
+        opts = sansio.make_options(connection_strategy="lazy")
+        client = sansio.make_client()
+        client.alpn, client.tls = b"h2", True
+        client.proxy_mode = mode_specs.ProxyMode.parse("regular")
+        top = H.HttpLayer(sansio.context_for(opts, client), H.HTTPMode.regular)
+        drv = DeferDriver(top, open_policy=lambda cmd: "E" * n)
+        drv.start()
+        cp = H2Peer(drv, client, client_side=True)
+        cp.start()
+        cp.h2.send_headers(1, [(b":method", b"GET"), (b":scheme", b"http"), (b":authority", b"a.test"), (b":path", b"/")], end_stream=True)
+        cp.flush()
+        for _ in range(50):
+            new = cp.pump()
+            cp.flush()
+            if not new:
+                break
+        m = h2_message(cp.events, 1, False)
+    except Exception as e:
+        import traceback
+        b.fail("error_page.no_crash", inp, f"{type(e).__name__}: {e} {traceback.format_exc()[-500:]}")
+        return
+    if m["headers"] is None or dict(m["headers"]).get(b":status") != b"502":
+        b.fail("error_page.status", inp, str(m["headers"]))
+        return
+    if not m["body"].endswith(b"</html>") or m["body"].count(b"E" * n) != 1:
+        b.fail("error_page.whole_body", inp, f"{len(m['body'])} bytes, tail {m['body'][-40:]!r}")
+    if not m["ended"] or m["reset"] is not None:
+        b.fail("error_page.stream_ends", inp, f"ended={m['ended']} reset={m['reset']} after {len(m['body'])} body bytes")
+
+
 def bounded(tier, seed):
     import itertools
     import random
@@ -1631,4 +1724,8 @@ def bounded(tier, seed):
     for params in itertools.product(("response", "request"), (False, True), (True, False), (False, True), (0, 5), (False, True), chunks):
         b.case(("flow",) + params, nontrivial=True)
         check_flow_world(b, params)
+    # a single write larger than one frame that also ends the stream (and, for the largest, exceeds the initial window)
+    for n in (100, 16000, 16384, 20000, 40000, 70000, 140000):
+        b.case(("error-page", n), nontrivial=n > 16384)
+        check_error_page(b, n)
     return b
